@@ -61,6 +61,7 @@ def world(output_state: str, stale_pwd: bool):
         out.mkdir()
         (out / "__init__.py").write_text("# earlier init\n")
         (out / "a.py").write_text("# earlier a\n")
+        (out / "b.py").write_bytes(b"# earlier b, written in another encoding: caf\xe9\n")
     cwd, old_pwd = os.getcwd(), os.environ.get("PWD")
     os.chdir(root / "start")
     os.environ["PWD"] = str(root / "elsewhere") if stale_pwd else str(root / "start")
@@ -216,6 +217,9 @@ def check_failing(name, text, extra, state, stale, modular_into_file=False):
         changed = sorted(k for k in set(before) | set(after) if before.get(k) != after.get(k))
         if err is not None and changed:
             return f"run failed ({err}) but the file system changed: {changed}"
+        if err is None and name == "modular-into-file":
+            # one of the failing conditions the property names: several modules requested into a single file path
+            return f"a modular result requested into the single file {out.name} was not refused: {changed or 'nothing'} created / changed"
         if err is None:
             rel_out = str(out.relative_to(root))
             outside = [k for k in changed if not (k == rel_out or k.startswith(rel_out + "/"))]
@@ -241,7 +245,8 @@ def falsify(ctx):
                 cases.append((name2, text, extra, state, stale))
     if not ctx.thorough:
         rng.shuffle(cases)
-        cases = cases[:70]
+        keep = [c for c in cases if c[0] == "modular-into-file"]   # one of the conditions the property names: always run
+        cases = keep + [c for c in cases if c[0] != "modular-into-file"][: 70 - len(keep)]
     seen = 0
     for name, text, extra, state, stale in cases:
         ctx.count("eval_e2e")
